@@ -70,6 +70,11 @@ def jobs(tier):
                            functions=fn_z0, bound=b))
     # --- allocating operations: fully concrete shapes (realloc with a symbolic size is out of reach)
     J += resize_jobs(tier)
+    for n_ in (65536, 46341):
+        J.append(V.Job("resize.huge_%d" % n_, H, "h_resize_huge", SRCS, defines=small + ["-DHUGE_N=%d" % n_, "-DVERIF_BUILTIN_MEM"], unwind=6,
+                       union_struct=True, kind="bounded", canary=False,
+                       functions=["vnadata_resize (size arithmetic)"],
+                       bound="1x1x1 object resized to %d x %d x 1 (concrete)" % (n_, n_), timeout=200))
     return J
 
 
